@@ -252,7 +252,7 @@ Lemma coherent_sym : forall a b, coherent a b -> coherent b a.
 Proof. intros a b H fb fa Hb Ha E. symmetry. apply H; auto. Qed.
 
 Lemma partner_coherent : forall a b f1, coherent a b -> In f1 (m_frames a) ->
-  partner f1 b = find (fun z => fr_name z =? fr_name f1) (m_frames b).
+  partner a b f1 = find (fun z => fr_name z =? fr_name f1) (m_frames b).
 Proof.
   intros a b f1 C H1. unfold partner, frame_by_name.
   destruct (find (fun f => fr_name f =? fr_name f1) (m_frames b)) as [f2|] eqn:E; [reflexivity|].
@@ -333,4 +333,70 @@ Proof.
   intros ign a b r1 r2 Wa Wb C H1 H2. apply compare_db_some in H1, H2. subst r1 r2. split.
   - apply db_swap; assumption.
   - apply db_swap; [assumption | assumption | apply coherent_sym; exact C].
+Qed.
+
+(* ------------------------------------------------------------------ frames added / deleted: no hypothesis at all *)
+Definition topf (want : cresult -> bool) (k : cres) : list Z :=
+  match k with
+  | Node r TFRAME ref [] => if want r then [ref] else []
+  | _ => []
+  end.
+Lemma top_frames_eq : forall want t, top_frames want t = flat_map (topf want) (kids_of t).
+Proof. reflexivity. Qed.
+Lemma topf_other_type : forall want k, type_of k <> TFRAME -> topf want (propagate k) = [].
+Proof. intros want [r ty ref kids] H. rewrite propagate_node. cbn in H. destruct ty; try reflexivity. congruence. Qed.
+Lemma topf_all_other : forall want l, (forall k, In k l -> type_of k <> TFRAME) -> flat_map (topf want) (map propagate l) = [].
+Proof.
+  intros want l H. rewrite flat_map_map'. apply flat_map_nil_in. intros k Hk. apply topf_other_type. apply H. exact Hk.
+Qed.
+Lemma topf_frame_node : forall want ign f1 f2, neutral want -> topf want (propagate (compare_frame_t ign f1 f2)) = [].
+Proof.
+  intros want ign f1 f2 [N1 [N2 _]]. unfold compare_frame_t. rewrite propagate_node. cbn [topf].
+  destruct (map propagate (frame_kids ign f1 f2)); [|reflexivity].
+  cbn [existsb]. rewrite N1. reflexivity.
+Qed.
+
+Lemma top_frames_db : forall want ign a b, neutral want ->
+  top_frames want (propagate (compare_db_t ign a b)) =
+  flat_map (fun f1 => match partner a b f1 with Some _ => [] | None => if want RDeleted then [fr_name f1] else [] end) (m_frames a)
+  ++ flat_map (fun f2 => match partner b a f2 with Some _ => [] | None => if want RAdded then [fr_name f2] else [] end) (m_frames b).
+Proof.
+  intros want ign a b N. rewrite top_frames_eq, kids_of_propagate. unfold compare_db_t. cbn [kids_of]. unfold db_kids.
+  rewrite !map_app, !flat_map_app'.
+  assert (Hrest : forall l, (forall k, In k l -> type_of k <> TFRAME) -> flat_map (topf want) (map propagate l) = [])
+    by (apply topf_all_other).
+  (* everything after the two frame passes has another type *)
+  rewrite (Hrest (if ig_attr ign then [] else _)).
+  2:{ intros k Hk. destruct (ig_attr ign); [contradiction|]. destruct Hk as [Hk|[]]. subst k.
+      rewrite compare_attributes_shape. discriminate. }
+  rewrite (Hrest (named_part1 ec_name _ _ _ _)).
+  2:{ intros k Hk. unfold named_part1 in Hk. apply in_map_iff in Hk. destruct Hk as [e [E _]]. subst k.
+      destruct (find _ (m_ecus b)); discriminate. }
+  rewrite (Hrest (named_part2 ec_name _ _ _)).
+  2:{ intros k Hk. unfold named_part2 in Hk. apply in_flat_map in Hk. destruct Hk as [e [_ Hk]].
+      destruct (find _ (m_ecus a)); [contradiction|]. destruct Hk as [Hk|[]]. subst k. discriminate. }
+  rewrite (Hrest (if ig_def ign then [] else _)).
+  2:{ intros k Hk. destruct (ig_def ign); [contradiction|]. rewrite !compare_define_list_shape in Hk. cbn in Hk.
+      destruct Hk as [Hk|[Hk|[Hk|[Hk|[]]]]]; subst k; discriminate. }
+  rewrite (Hrest (if ig_vt ign then [] else _)).
+  2:{ intros k Hk. destruct (ig_vt ign); [contradiction|]. unfold dict_kids in Hk. apply in_app_or in Hk.
+      destruct Hk as [Hk|Hk]; apply in_flat_map in Hk; destruct Hk as [[n t] [_ Hk]]; cbn [fst snd] in Hk.
+      - destruct (lookup n (m_vtables b)); destruct Hk as [Hk|[]]; subst k; [rewrite compare_value_table_shape|]; discriminate.
+      - destruct (lookup n (m_vtables a)); [contradiction|]. destruct Hk as [Hk|[]]. subst k. discriminate. }
+  rewrite !app_nil_r. f_equal.
+  - rewrite !flat_map_map'. apply flat_map_ext_in. intros f1 _. destruct (partner a b f1).
+    + apply topf_frame_node. exact N.
+    + reflexivity.
+  - rewrite flat_map_map', flat_map_flat_map. apply flat_map_ext_in. intros f2 _. destruct (partner b a f2); [reflexivity|].
+    cbn. apply app_nil_r.
+Qed.
+
+Lemma frames_swap : forall ign a b r1 r2, compare_db ign a b = Some r1 -> compare_db ign b a = Some r2 ->
+  top_frames is_added r2 = top_frames is_deleted r1 /\ top_frames is_added r1 = top_frames is_deleted r2.
+Proof.
+  intros ign a b r1 r2 H1 H2. apply compare_db_some in H1, H2. subst r1 r2.
+  rewrite !top_frames_db by neut. cbn [is_added is_deleted].
+  assert (Hn : forall (x y : matrix), flat_map (fun f : frame => match partner x y f with Some _ => [] | None => @nil Z end) (m_frames x) = [])
+    by (intros x y; apply flat_map_nil_in; intros f _; destruct (partner x y f); reflexivity).
+  rewrite !Hn, !app_nil_r. cbn [app]. split; reflexivity.
 Qed.
